@@ -131,7 +131,7 @@ PROPS["C07"] = {
     "violation_if": {"cancel": r"^HANG"},
     "lean_module": "LispModel.Props.C07",
     "engines": [{"name": "cancel", "quick": 2500, "thorough": 40000},
-                {"name": "cancelwall", "quick": 93, "thorough": 620}],
+                {"name": "cancelwall", "quick": 114, "thorough": 760}],
     "technique": "Lean 4 theorems about the poll structure of the evaluator model (every loop iteration polls first) + poll-counting context correspondence",
     "level_text": "PARTIAL: the logic is proved in poll ticks (after the cancelling poll every evaluation step returns the timeout error at once, no effect "
                   "is appended, the number of further polls is bounded by the try nesting); the tie runs real EVAL under a context whose Done() closes at the "
@@ -143,7 +143,8 @@ PROPS["C08"] = {
     "lean_module": "LispModel.Props.C08",
     "engines": [{"name": "tail", "quick": 1200, "thorough": 20000},
                 {"name": "tailconc", "quick": 1, "thorough": 1, "deterministic": True},
-                {"name": "afterdebug", "quick": 1, "thorough": 1, "deterministic": True}],
+                {"name": "afterdebug", "quick": 1, "thorough": 1, "deterministic": True},
+                {"name": "taillong", "quick": 1, "thorough": 1, "deterministic": True}],
     "technique": "Lean 4 theorems about the EVAL-frame depth carried by the evaluator model + depth! marks compared with runtime.Callers frame counts",
     "level_text": "PARTIAL: 'no additional host stack' is proved as 'no additional EVAL activation': every tail-position construct continues the loop at the same "
                   "depth; the tie demands equality of the model's depth with the number of lisp.EVAL frames counted on the real stack at every depth! mark.",
@@ -342,3 +343,5 @@ for _pid in ("C13", "C20"):
     PROPS[_pid].setdefault("tie_modules", []).append("LispModel.Tie.Registry")
 for _pid in ("C01", "C03", "C07", "C08"):
     PROPS[_pid].setdefault("tie_modules", []).append("LispModel.Tie.EvalArms")
+for _pid in ("C07", "C10"):
+    PROPS[_pid].setdefault("tie_modules", []).append("LispModel.Tie.Waits")
